@@ -573,9 +573,29 @@ class Engine:
             return False
         name = strip_generics(c.get("path", ""))
         m = self.models.get(strip_generics(c.get("resolved") or "")) or self.models.get(name)
-        if m is None:
-            return False
         args = [self.operand(st, fr, a) for a in t["args"]]
+        if m is None:
+            # a `const fn` of the workspace (typically a constructor `X::new()`): evaluated as a pure function
+            u_ = fr.mir.unit if fr.mir is not None else self.unit
+            rn = c.get("resolved") or c.get("path") or ""
+            body = self.find_body(u_.qualify(strip_generics(rn), c.get("resolved_krate") or c.get("krate"))) or self.find_body(strip_generics(rn))
+            if body is None and not args and strip_generics(rn).endswith("::new"):
+                # a unit-like constructor of another crate (a command handler type): an opaque value naming its type
+                store(self.place_loc(st, fr, t["dest"], for_write=True), AggV("new:%s<%s>" % (strip_generics(c.get("impl_self") or rn), ",".join(str(g) for g in (c.get("gargs") or ()))), {}))
+                return True
+            if body is None or body.kind not in ("Fn", "AssocFn") or getattr(self, "_const_depth", 0) > 6:
+                return False
+            self._const_depth = getattr(self, "_const_depth", 0) + 1
+            try:
+                res = self.run(body, args)
+            except Exception:
+                res = []
+            finally:
+                self._const_depth -= 1
+            if len(res) != 1 or res[0].outcome != "return":
+                return False
+            store(self.place_loc(st, fr, t["dest"], for_write=True), res[0].retval)
+            return True
         r = m(self, st, fr, t, name, name, args)
         if r is NotImplemented or isinstance(r, list):
             return False
